@@ -86,6 +86,7 @@ package graph
 //@   ensures  [frame] frameG(g)
 //@   ensures  [foot] footGrows(g)
 //@   ensures  [inner-stable] innerStable(g)
+//@   ensures  [fresh-maps] imp(old(zerog(g)), fresh(g.hash) && fresh(g.adjacencyOut) && fresh(g.adjacencyIn))
 //@   assigns  Graph.adjacencyOut, Graph.adjacencyIn, Graph.hash, Outer, HashM, Inner
 //@   modifies g, g.adjacencyOut, g.adjacencyIn, g.hash, forall(m, Inner, infoot(g, m))
 //@   quietframe
@@ -101,6 +102,7 @@ package graph
 //@   ensures  [frame] frameG(g)
 //@   ensures  [foot] footGrows(g)
 //@   ensures  [inner-stable] innerStable(g)
+//@   ensures  [fresh-maps] imp(old(zerog(g)), fresh(g.hash) && fresh(g.adjacencyOut) && fresh(g.adjacencyIn))
 //@   assigns  Graph.adjacencyOut, Graph.adjacencyIn, Graph.hash, Outer, HashM, Inner
 //@   modifies g, g.adjacencyOut, g.adjacencyIn, g.hash, forall(m, Inner, infoot(g, m))
 //@   quietframe
@@ -492,6 +494,7 @@ package graph
 //@   ensures  [only-reported-recorded] imp(cbset(self) != nil, forall(k, any, imp(has(cbset(self), k) && !old(has(cbset(self), k)), in(k, reported))))
 //@   ensures  [never-fails] imp(neverFails(self), result == nil)
 //@   assigns  VisitM, reported, dvisited
+//@   modifies captured(next, "graph.(*Graph).dfs$1", "visited"), cbset(self)
 
 //@ func (*Graph).dfs$1
 //@   requires g != nil && wf0(g) && visited != nil && cb != nil && !in(w, dvisited) && dom(visited) == dvisited && visited != cbset(cb) && (cbset(cb) == nil || allocated(cbset(cb)))
@@ -503,6 +506,7 @@ package graph
 //@   ensures  [only-reported-recorded] imp(cbset(cb) != nil, forall(k, any, imp(has(cbset(cb), k) && !old(has(cbset(cb), k)), in(k, reported))))
 //@   ensures  [never-fails] imp(neverFails(cb), result == nil)
 //@   assigns  VisitM, reported, dvisited
+//@   modifies visited, cbset(cb)
 
 //@ func (*Graph).dfs
 //@   requires wf0(g) && visited != nil && cb != nil && !in(v, dvisited) && dom(visited) == dvisited && visited != cbset(cb) && (cbset(cb) == nil || allocated(cbset(cb)))
@@ -515,6 +519,7 @@ package graph
 //@   ensures  [only-reported-recorded] imp(cbset(cb) != nil, forall(k, any, imp(has(cbset(cb), k) && !old(has(cbset(cb), k)), in(k, reported))))
 //@   ensures  [never-fails] imp(neverFails(cb), result == nil)
 //@   assigns  VisitM, reported, dvisited
+//@   modifies visited, cbset(cb)
 //@   after "visited[v] = struct{}{}" set dvisited = add(dvisited, v)
 //@   loop 1 invariant [reported-recorded] imp(cbset(cb) != nil, forall(k, any, imp(in(k, reported) && !old(in(k, reported)), has(cbset(cb), k))))
 //@   loop 1 invariant [only-reported-recorded] imp(cbset(cb) != nil, forall(k, any, imp(has(cbset(cb), k) && !old(has(cbset(cb), k)), in(k, reported))))
@@ -542,6 +547,7 @@ package graph
 //@   ensures  [only-reported-recorded] imp(cbset(cb) != nil, forall(k, any, imp(has(cbset(cb), k) && !old(has(cbset(cb), k)), in(k, reported))))
 //@   ensures  [never-fails] imp(neverFails(cb), result == nil)
 //@   assigns  VisitM, reported, dvisited
+//@   modifies cbset(cb)
 //@   before "return g.dfs(" set dvisited = emptyset(any)
 
 // ---------------------------------------------------------------- kahn.go
@@ -800,3 +806,7 @@ package graph
 //@   loop 4 invariant forall(a, any, b, any, imp(in(a, fin) && edge(g, a, b), in(b, fin) && dd(queueItem, b) <= dd(queueItem, a) + wgt(g, a, b)))
 //@   loop 4 invariant forall(k, any, imp(has(g.hash, k), has(visited, k)))
 //@   loop 4 invariant forall(k, any, has(distTo, k) == in(k, seen4) && has(edgeTo, k) == in(k, seen4) && imp(in(k, seen4), has(g.hash, k) && distTo[k] == dd(queueItem, k) && edgeTo[k] == g.hash[pp(queueItem, k)]))
+
+// String renders the graph for logging: it only reads (T: vertex String methods have no effect on library state).
+//@ extern (*Graph).String :: (g *Graph) string
+//@   pure
